@@ -33,13 +33,19 @@ fn build_and_write_probed(plan: &Plan, key: u64, probes: u64) -> Built {
 }
 
 fn build_and_write_with(plan: &Plan, key: u64, probes: u64, ctors: u64) -> Built {
+    build_and_write_into(plan, key, probes, ctors, 0)
+}
+
+/// `fill`: previous contents of the output buffer.  The canonical build writes into zeros, the
+/// history build into 0xa5: bytes that leak from the buffer are not "what was configured".
+fn build_and_write_into(plan: &Plan, key: u64, probes: u64, ctors: u64, fill: u8) -> Built {
     realise_with(plan, key, probes, ctors, |c| {
         let size = guarded_size(c);
         let n = match &size {
             Some(WRes::Ok(n)) => (*n).min(1 << 20),
             _ => 600,
         };
-        let mut buf = vec![0u8; n + 4];
+        let mut buf = vec![fill; n + 4];
         let write = guarded_write(c, &mut buf);
         let used = match &write {
             WRes::Ok(w) => (*w).min(buf.len()),
@@ -252,7 +258,7 @@ fn run_case(spec: &Spec, tape: &mut Tape, key_canon: u64, key_var: u64) -> Resul
     // constructor forms: `X::builder(..)` or the public sibling (`XBuilder::new` / `::default()`)
     let ctors = if tape.choose(3) == 2 { tape.value() as u64 | ((tape.value() as u64) << 32) } else { 0 };
     let a = build_and_write(&canonical, key_canon);
-    let b = build_and_write_with(&variant, key_var, probes, ctors);
+    let b = build_and_write_into(&variant, key_var, probes, ctors, 0xa5);
     let mut log = vec![format!("canonical: {canonical:?}"), format!("variant:   {variant:?}"), format!("canonical -> size {:?} write {:?} bytes {}", a.size, a.write, hex(&a.bytes)), format!("variant   -> size {:?} write {:?} bytes {}", b.size, b.write, hex(&b.bytes))];
     log.truncate(6);
     let kind = spec.kind_name();
